@@ -23,6 +23,12 @@ def system_level(ctx, binary, projects, limit):
                 return programs.parse_dump(open(p, "rb").read())
             except Exception as ex:
                 return None
+        if r2 is not None and not programs.same_output(r1[1], r2[1], proj):
+            # HashMap iteration order differs from run to run: a program whose own output is not
+            # reproducible is not compared
+            again = programs.run_bin(binary, ["run", e, "-q"], d)
+            if not programs.same_output(r1[1], again[1], None):
+                r2 = (r2[0], r1[1], r2[2])
         res = (proj, r1, c, r2, rd(os.path.join(d, "dump1")), rd(os.path.join(d2, "dump2")))
         shutil.rmtree(d, ignore_errors=True)
         shutil.rmtree(d2, ignore_errors=True)
@@ -47,6 +53,7 @@ def system_level(ctx, binary, projects, limit):
                         "execute": {"rc": r2[0], "stdout": r2[1][-2000:], "stderr": r2[2][-1500:]}})
             continue
         if d1 is not None and d2 is not None:
+            d1, d2 = programs.canon_dump(d1), programs.canon_dump(d2)
             n_dump += 1
             # same functions & instructions in the files both paths loaded
             for f in set(d1) & set(d2):
